@@ -21,9 +21,8 @@
 (*                                                                         *)
 (* Layer B: the evaluation routines transcribed statement by statement     *)
 (* (Variant): the unrolled 3-state left-to-right routine, its multiplexed  *)
-(* twin, the unrolled 5-state routine, and the general-topology routine    *)
-(* with and without multiplexing.  (The multiplexed 5-state routine is     *)
-(* bound by trace validation against Layer A only.)                        *)
+(* twin, the unrolled 5-state routine and its multiplexed twin, and the     *)
+(* general-topology routine with and without multiplexing.                 *)
 (*                                                                         *)
 (* FixT2 = FALSE is the code as it was: the scratch variable t2 is given   *)
 (* the value "no skip transition" once, before the exit state is           *)
@@ -36,7 +35,7 @@ EXTENDS Integers, FiniteSets, Sequences, TLC
 CONSTANTS N,          \* number of emitting states
           Worst,      \* WORST_SCORE
           NoTr,       \* TMAT_WORST_SCORE: this value in the matrix means "no transition"
-          Variant,    \* "lr3" | "lr3mpx" | "lr5" | "any" | "anympx"
+          Variant,    \* "lr3" | "lr3mpx" | "lr5" | "lr5mpx" | "any" | "anympx"
           FixT2,      \* BOOLEAN, see above
           TPSet,      \* the transition matrices: [0..N-1 -> [0..N -> Int]] (values <= 0)
           K,          \* number of senone sequences (1 unless multiplexed)
@@ -44,7 +43,7 @@ CONSTANTS N,          \* number of emitting states
           EnterVals,  \* scores a path can enter with
           MaxIds, MaxFrames
 
-Mpx == Variant \in {"lr3mpx", "anympx"}
+Mpx == Variant \in {"lr3mpx", "lr5mpx", "anympx"}
 Bad == 0                      \* BAD_SSID
 MinInt == 4 * Worst           \* INT_MIN is exactly 4 * WORST_SCORE
 St == 0 .. N - 1
@@ -186,6 +185,47 @@ Lr5(sen) ==
       ss |-> ss,
       bs |-> Max2(Max2(b3, n2), Max2(n1, n0))]
 
+(* hmm_vit_eval_5st_lr_mpx *)
+Lr5Mpx(sen) ==
+  LET dead(i) == ss[i] = Bad
+      e(i) == IF dead(i) THEN Worst ELSE sc[i] + sen[ss[i]][i]       \* score + senone score, or the floor
+      s4 == e(4)
+      s3 == e(3)
+      x1 == IF dead(4) THEN Worst ELSE s4 + tp[4][5]
+      x2 == IF dead(3) THEN Worst ELSE s3 + tp[3][5]
+      fromFour == x1 > x2
+      s5 == Clamp(IF fromFour THEN x1 ELSE x2)
+      s2 == e(2)
+      a2 == IF dead(2) THEN Worst ELSE s2 + tp[2][4]
+      a0 == IF s4 # Worst THEN s4 + tp[4][4] ELSE Worst
+      a1 == IF s3 # Worst THEN s3 + tp[3][4] ELSE Worst
+      pick4 == IF a0 > a1 THEN (IF a2 > a0 THEN 2 ELSE 4) ELSE (IF a2 > a1 THEN 2 ELSE 3)
+      n4 == Clamp(CASE pick4 = 2 -> a2 [] pick4 = 3 -> a1 [] OTHER -> a0)
+      s1 == e(1)
+      b2 == IF dead(1) THEN Worst ELSE s1 + tp[1][3]
+      b0 == IF s3 # Worst THEN s3 + tp[3][3] ELSE Worst
+      b1 == IF s2 # Worst THEN s2 + tp[2][3] ELSE Worst
+      pick3 == IF b0 > b1 THEN (IF b2 > b0 THEN 1 ELSE 3) ELSE (IF b2 > b1 THEN 1 ELSE 2)
+      n3 == Clamp(CASE pick3 = 1 -> b2 [] pick3 = 2 -> b1 [] OTHER -> b0)
+      s0 == sc[0] + sen[ss[0]][0]
+      c0 == IF s2 # Worst THEN s2 + tp[2][2] ELSE Worst
+      c1 == IF s1 # Worst THEN s1 + tp[1][2] ELSE Worst
+      c2 == s0 + tp[0][2]
+      pick2 == IF c0 > c1 THEN (IF c2 > c0 THEN 0 ELSE 2) ELSE (IF c2 > c1 THEN 0 ELSE 1)
+      n2 == Clamp(CASE pick2 = 0 -> c2 [] pick2 = 1 -> c1 [] OTHER -> c0)
+      d0 == IF s1 # Worst THEN s1 + tp[1][1] ELSE Worst
+      d1 == s0 + tp[0][1]
+      keep1 == d0 > d1
+      n1 == Clamp(IF keep1 THEN d0 ELSE d1)
+      n0 == Clamp(s0 + tp[0][0])
+      src == [i \in St |-> CASE i = 4 -> pick4 [] i = 3 -> pick3 [] i = 2 -> pick2 [] i = 1 -> (IF keep1 THEN 1 ELSE 0) [] OTHER -> 0]
+  IN [sc |-> [i \in St |-> CASE i = 0 -> n0 [] i = 1 -> n1 [] i = 2 -> n2 [] i = 3 -> n3 [] OTHER -> n4],
+      hi |-> [i \in St |-> hi[src[i]]],
+      out |-> s5,
+      outh |-> IF fromFour THEN hi[4] ELSE hi[3],
+      ss |-> [i \in St |-> ss[src[i]]],
+      bs |-> Max2(Max2(Max2(s5, n4), Max2(n3, n2)), Max2(n1, n0))]
+
 (* hmm_vit_eval_anytopo: candidates scanned from the state below down to state 0, strictly better wins *)
 RECURSIVE Scan(_, _, _, _, _)
 Scan(st, to, from, scr, bf) ==
@@ -205,7 +245,7 @@ AnyTopo(sen) ==
       ss |-> [to \in St |-> IF Mpx /\ r[to][2] >= 0 THEN ss[r[to][2]] ELSE ss[to]],
       bs |-> mx]
 
-Evaluated(sen) == CASE Variant = "lr3" -> Lr3(sen) [] Variant = "lr3mpx" -> Lr3Mpx(sen) [] Variant = "lr5" -> Lr5(sen) [] OTHER -> AnyTopo(sen)
+Evaluated(sen) == CASE Variant = "lr3" -> Lr3(sen) [] Variant = "lr3mpx" -> Lr3Mpx(sen) [] Variant = "lr5" -> Lr5(sen) [] Variant = "lr5mpx" -> Lr5Mpx(sen) [] OTHER -> AnyTopo(sen)
 
 ---------------------------------------------------------------------------
 Cleared == /\ sc = [i \in St |-> Worst] /\ hi = [i \in St |-> -1] /\ out = Worst /\ outh = -1 /\ bs = Worst
